@@ -5,6 +5,8 @@
 set -u
 id="$1"; prop="$2"; pkg="$3"; needs="${4:-}"
 dir=/verif/seeded/$id
+if [ -z "$pkg" ] || [ "$pkg" = "-" ]; then pkg=$(sed -n 's/^pkg: *//p' "$dir/notes.txt" | head -1); fi
+[ -n "$pkg" ] || pkg=cmd/rdpgw/protocol
 export GOFLAGS=-mod=mod GOPROXY=off GOSUMDB=off GOTOOLCHAIN=local
 wt=$(mktemp -d /tmp/confirm-XXXXXX)
 git -C /repo worktree add -q --detach "$wt" HEAD || exit 2
